@@ -46,6 +46,10 @@ for d in sorted(os.listdir(os.path.join(ROOT, "seeded"))):
     patch, demo = os.path.join(sd, "patch.diff"), os.path.join(sd, "demo.py")
     if not os.path.exists(patch) or (only and d not in only):
         continue
+    mp = os.path.join(sd, "meta.json")
+    head = subprocess.check_output(["git", "-C", "/repo", "rev-parse", "--short", "HEAD"]).decode().strip()
+    if not only and os.path.exists(mp) and "existing_tests_on_changed_tree" in json.load(open(mp)) and json.load(open(mp)).get("repo_head") == head:
+        continue
     notes = open(os.path.join(sd, "notes.txt")).read() if os.path.exists(os.path.join(sd, "notes.txt")) else ""
     meta = {"id": d, "breaks_property": d[:3], "property_title": props[d[:3]]["title"],
             "files_changed": sorted(set(re.findall(r"^\+\+\+ b/(\S+)", open(patch).read(), re.M))),
@@ -66,12 +70,12 @@ for d in sorted(os.listdir(os.path.join(ROOT, "seeded"))):
             comp = subprocess.run(["/venv/bin/python", "-m", "compileall", "-q", os.path.join(wt, "more_executors")], capture_output=True, text=True)
             meta["compiles"] = comp.returncode == 0
             if suite:
-                r = subprocess.run(["/venv/bin/python", "-m", "pytest", "-q", "-p", "no:cacheprovider", "--timeout=900", "--deselect", "tests/types/test_typehints.py"],
+                r = subprocess.run(["/venv/bin/python", "-m", "pytest", "-q", "-p", "no:cacheprovider", "--timeout=150", "--deselect", "tests/types/test_typehints.py"],
                                    cwd=wt, capture_output=True, text=True, timeout=3000)
                 last = (r.stdout.strip().splitlines() or ["?"])[-1]
                 meta["existing_tests_on_changed_tree"] = last
                 meta["existing_tests_pass"] = bool(re.search(r"\b1723 passed", last)) and "failed" not in last
-                ran.append("pytest -q -p no:cacheprovider --timeout=900 (tests/types/test_typehints.py deselected: needs mypy, fails on the unchanged tree too) on the changed tree: %s" % last)
+                ran.append("pytest -q -p no:cacheprovider --timeout=150 (tests/types/test_typehints.py deselected: needs mypy, fails on the unchanged tree too) on the changed tree: %s" % last)
         meta["what_i_ran"] = ran
         res = results.get(d, {})
         meta["my_checks"] = {"caught": res.get("caught"), "reports": {k: v.get("lines") for k, v in (res.get("checks") or {}).items()}}
